@@ -332,6 +332,23 @@ func runC29(r *lib.Run) {
 					continue
 				}
 				got := gnmiElems(gp)
+				if cfg.Simplify {
+					// documented: an element all of whose keys are wildcards is rendered without keys
+					se := append([]lib.PathElem(nil), exp...)
+					for i := range se {
+						all := len(se[i].Keys) > 0
+						for _, v := range se[i].Keys {
+							if v != "*" {
+								all = false
+							}
+						}
+						if all {
+							se[i] = lib.PathElem{Name: se[i].Name, Pos: se[i].Pos}
+							r.Hit("simplified-wildcard-element")
+						}
+					}
+					exp = se
+				}
 				want := expectedElems(exp)
 				if got != want {
 					feat := fi.Kind.String()
